@@ -427,7 +427,7 @@ class Run:
         self.lines("warning", I.gets("GetWarningString"), where)
         for stream, key in (("output", "os"), ("log", "ls")):
             if sw and sw[key]:
-                if step["ok"]:
+                if step["ok"] or self.case["meta"].get("strict_after_failed_load"):      # (strict only in the known-finding replay)
                     self.lines(stream, I.gets("Get%sString" % CAP[stream]), where)
                 else:
                     self.info["events"].append("excluded_stale_%s_lines_after_failed_load" % stream)
